@@ -50,8 +50,15 @@ def gen(seed):
             beh = ["never"]
         reqs.append(dict(i=i, kind=kind, broker=b, t=round(rng.choice((0, 0, 0.01, rng.uniform(0, 3 * T))), 4),
                          beh=beh, cancel=(round(rng.uniform(0, 2 * T), 4) if rng.random() < 0.08 else None)))
-    return dict(seed=seed, T=T, brokers=brokers, blackhole=blackhole, reqs=reqs,
-                disconnect_on_timeout=rng.random() < 0.5, latency=rng.choice((0.0, 0.0, 0.003)))
+    versions_only = rng.random() < 0.12
+    if versions_only:
+        # a version discovery on a client of its own: it retries under ONE correlation id
+        r = rng.random()
+        beh = ["delay", rng.choice((1.01, 1.2, 1.5, 1.9, 2.5))] if r < 0.8 else (["never"] if r < 0.9 else ["prompt"])
+        reqs = [dict(i=0, kind="versions", broker=brokers[0], t=0.0, beh=beh, cancel=None)]
+        blackhole = None
+    return dict(seed=seed, T=T, brokers=brokers, blackhole=blackhole, reqs=reqs, versions_only=versions_only,
+                disconnect_on_timeout=(rng.random() < 0.5) and not versions_only, latency=rng.choice((0.0, 0.0, 0.003)))
 
 
 def run_once(sc, ghost):
@@ -64,16 +71,29 @@ def run_once(sc, ghost):
     for r in sc["reqs"]:
         cl.add_topic("q%d" % r["i"], {0: r["broker"]})
         cl.coordinators["g%d" % r["i"]] = r["broker"]
-    rec = dict(mrtb=[], calls={}, timer_mismatch=[], closes=[])
+    rec = dict(mrtb=[], calls={}, timer_mismatch=[], closes=[], raw=[], refused=[])
     late = set()
     for r in sc["reqs"]:
         Teff = max(T, 35.0) if r["kind"] == "join" else T
         api = {"fetch": "Fetch", "offsets": "ListOffsets", "produce": "Produce", "produce0": "Produce",
-               "heartbeat": "Heartbeat", "join": "JoinGroup"}[r["kind"]]
+               "heartbeat": "Heartbeat", "join": "JoinGroup", "versions": "ApiVersions"}[r["kind"]]
         match = dict(api=api, topic="q%d" % r["i"]) if r["kind"] in ("fetch", "offsets", "produce", "produce0") else \
             dict(api=api, group="g%d" % r["i"])
         if r["kind"] == "produce0":
             continue  # no reply is ever expected: the request resolves when written
+        if r["kind"] == "versions":
+            # the discovery retries under ONE correlation id: its first attempt is answered late (or never), so the
+            # late reply meets a later attempt bearing the same id
+            if r["beh"][0] == "delay":
+                # (every attempt is answered equally late: the reply to attempt k lands while attempt k+1 waits)
+                cl.faults.add(dict(api="ApiVersions", client_id=b"c11-versions",
+                                   action=dict(kind="ok", delay=r["beh"][1] * T)))
+                if r["beh"][1] > 1.0:
+                    late.add(("ApiVersions", -1))
+            elif r["beh"][0] == "never":
+                cl.faults.add(dict(api="ApiVersions", client_id=b"c11-versions", nth=[0],
+                                   action=dict(kind="silent", apply=False)))
+            continue
         if r["beh"][0] == "delay":
             d = r["beh"][1] * Teff
             cl.faults.add(dict(match, action=dict(kind="ok", delay=d)))
@@ -83,6 +103,8 @@ def run_once(sc, ghost):
             cl.faults.add(dict(match, action=dict(kind="silent", apply=False)))
 
     def is_late(ev):
+        if ev["api"] == "ApiVersions":
+            return ("ApiVersions", -1) in late and ev.get("action", {}).get("delay", 0) > 0
         if ev["api"] in ("Fetch", "ListOffsets", "Produce"):
             return any((ev["api"], int(t[1:])) in late for t in ev["topics"] if t.startswith("q"))
         g = ev["req"].get("group") or ""
@@ -90,7 +112,11 @@ def run_once(sc, ghost):
     if ghost:
         cl.ghost_pred = is_late
     with Traps() as traps:
-        client = w.client(timeout=int(T * 1000), disconnect_on_timeout=sc["disconnect_on_timeout"])
+        if sc.get("versions_only"):
+            client = w.client(timeout=int(T * 1000), disconnect_on_timeout=False, clientId="c11-versions",
+                              enable_protocol_version_discovery=True)
+        else:
+            client = w.client(timeout=int(T * 1000), disconnect_on_timeout=sc["disconnect_on_timeout"])
         box = []
         client.load_metadata_for_topics().addBoth(box.append)
         w.run(until=5.0)
@@ -111,20 +137,48 @@ def run_once(sc, ghost):
             w.run(until=11.0)
         orig = type(client)._make_request_to_broker
 
-        def spy(broker, correlationId, request, expectResponse=True, min_timeout=None):
-            m = dict(t0=w.clock.seconds(), node=broker.node_id, corr=correlationId,
-                     T=max(client.timeout, min_timeout) if min_timeout is not None else client.timeout, fires=[],
-                     connected=broker.connected(), expect=expectResponse)
-            rec["mrtb"].append(m)
-            d = orig(client, broker, correlationId, request, expectResponse, min_timeout)
+        def spy_on(client_, tag):
+            def spy(broker, correlationId, request, expectResponse=True, min_timeout=None):
+                m = dict(t0=w.clock.seconds(), node=broker.node_id, corr=correlationId,
+                         T=max(client_.timeout, min_timeout) if min_timeout is not None else client_.timeout, fires=[],
+                         connected=broker.connected(), expect=expectResponse, client=tag)
+                try:
+                    d = orig(client_, broker, correlationId, request, expectResponse, min_timeout)
+                except Exception as e:
+                    # refused synchronously (a correlation id still in use): never became a request
+                    rec["refused"].append((w.clock.seconds(), broker.node_id, correlationId, type(e).__name__))
+                    raise
+                rec["mrtb"].append(m)
 
-            def fired(result):
-                m["fires"].append((w.clock.seconds(), not isinstance(result, Failure),
-                                   result if not isinstance(result, Failure) else type(result.value).__name__))
-                return result
-            d.addBoth(fired)
-            return d
-        client._make_request_to_broker = spy
+                def fired(result):
+                    m["fires"].append((w.clock.seconds(), not isinstance(result, Failure),
+                                       result if not isinstance(result, Failure) else type(result.value).__name__))
+                    return result
+                d.addBoth(fired)
+                return d
+            client_._make_request_to_broker = spy
+        spy_on(client, "main")
+        rec["raw"] = []
+        orig_get = client._get_brokerclient
+
+        def get_bc(node_id):
+            bc = orig_get(node_id)
+            if not getattr(bc, "_verif_wrapped", False):
+                bc._verif_wrapped = True
+                orig_mr = bc.makeRequest
+
+                def make_request(correlationId, request, expectResponse=True):
+                    q = dict(t0=w.clock.seconds(), node=bc.node_id, corr=correlationId, expect=expectResponse, fires=[])
+                    d = orig_mr(correlationId, request, expectResponse)
+                    rec["raw"].append(q)
+                    d.addBoth(lambda r_: (q["fires"].append((w.clock.seconds(), not isinstance(r_, Failure))), r_)[1])
+                    return d
+                bc.makeRequest = make_request
+            return bc
+        client._get_brokerclient = get_bc
+        for node_id in list(client.clients):
+            get_bc(node_id)
+        client2 = client if sc.get("versions_only") else None
 
         def timers_ok():
             n_t = sum(1 for dc in w.clock.getDelayedCalls() if getattr(dc.func, "__name__", "") == "_mrtb_timeout")
@@ -137,9 +191,11 @@ def run_once(sc, ghost):
         def issue(r):
             i = r["i"]
             topic, group = "q%d" % i, "g%d" % i
-            out = rec["calls"].setdefault(i, dict(t0=w.clock.seconds(), fires=[], d=None))
+            out = rec["calls"].setdefault(i, dict(t0=w.clock.seconds(), fires=[], d=None, kind=r["kind"]))
             try:
-                if r["kind"] == "fetch":
+                if r["kind"] == "versions":
+                    d = client2.fetch_api_versions()
+                elif r["kind"] == "fetch":
                     d = client.send_fetch_request([C.FetchRequest(topic, 0, 0, 1024)], max_wait_time=20, min_bytes=0)
                 elif r["kind"] == "offsets":
                     d = client.send_offset_request([C.OffsetRequest(topic, 0, -1, 1)])
@@ -178,7 +234,9 @@ def run_once(sc, ghost):
         w.run(until=horizon, max_steps=150000)
         w.clock.hooks.remove(timers_ok)
         del client._make_request_to_broker
+        rec["closed_at"] = w.clock.seconds()
         client.close()
+
         w.run(until=horizon + 5)
         traps.flush()
     rec["w"] = w
@@ -211,6 +269,20 @@ def outcome_table(rec):
             for m in rec["mrtb"]]
 
 
+def outcome_map(rec):
+    """(node, correlation id, issue time) -> outcome.  Requests are matched across the two runs by identity; a
+    request that exists in one run only (a late reply frees its correlation id for reuse, so a retry under the same
+    id becomes possible) is a different history, not a disturbed request."""
+    out = {}
+    for m in rec["mrtb"]:
+        cut = [f for f in m["fires"] if f[2] == "ClientError" and f[0] >= rec.get("closed_at", 1e18) - EPS]
+        if cut:
+            continue
+        out[(m["node"], m["corr"], round(m["t0"], 9))] = tuple((round(t, 9), ok, (v if not ok else "bytes"))
+                                                              for t, ok, v in m["fires"])
+    return out
+
+
 def run(spec):
     res = Result()
     sc = gen(spec["seed"])
@@ -232,6 +304,9 @@ def run(spec):
                         "the horizon" % len(m["fires"]), t0=m["t0"], T=T)
             continue
         t, ok, val = m["fires"][0]
+        if val == "ClientError" and t >= rec.get("closed_at", 1e18) - EPS:
+            res.ev("request_cut_short_by_the_harness_closing_the_client")
+            continue
         tds = [x for x in dl[m["node"]].get(m["corr"], []) if x >= m["t0"] - EPS]
         td = tds[0] if tds else None
         deadline = m["t0"] + T
@@ -289,7 +364,9 @@ def run(spec):
                     res.ob("silent_connection_dropped")
         else:
             res.ev("tie_between_reply_and_timer")
-    if sc["disconnect_on_timeout"]:
+    if sc.get("versions_only"):
+        pass
+    elif sc["disconnect_on_timeout"]:
         # requests outstanding on a dropped connection and not themselves timed out must be re-sent on a new one
         by_corr = {}
         for e in cl.history:
@@ -325,6 +402,23 @@ def run(spec):
         if closes and sc["blackhole"] is None:
             res.violate("disconnect-on-timeout/disconnected-although-disabled", "a connection was closed by the "
                         "client during the run although disconnect_on_timeout is off", n=len(closes))
+    # nothing reaches a broker connection except through the timed path: every makeRequest() seen on a broker
+    # client has a timed record with the same node and correlation id issued at that instant, and resolves in time
+    timed = set((m["node"], m["corr"], round(m["t0"], 9)) for m in rec["mrtb"])
+    for q in rec["raw"]:
+        if (q["node"], q["corr"], round(q["t0"], 9)) in timed:
+            continue
+        Tq = sc["T"]
+        if not q["fires"]:
+            res.violate("bound/request-outside-the-timed-path/never-resolved", "a request (expectResponse=%s) was handed "
+                        "to the broker client without a timeout and had not resolved %.1fs later (timeout %.3fs)"
+                        % (q["expect"], w.clock.seconds() - q["t0"], Tq), node=q["node"])
+        elif q["fires"][0][0] > q["t0"] + Tq + EPS:
+            res.violate("bound/request-outside-the-timed-path/resolved-late", "a request handed to the broker client "
+                        "without a timeout resolved %.6fs later (timeout %.3fs)" % (q["fires"][0][0] - q["t0"], Tq))
+        else:
+            res.ev("untimed_request_resolved_in_time")
+    res.ob("all_requests_on_the_timed_path", len(rec["raw"]))
     if rec["timer_mismatch"]:
         t, n_t, n_o = rec["timer_mismatch"][0]
         res.violate("timer/%s" % ("not-released" if n_t > n_o else "missing"), "at a quiescent point %d timeout "
@@ -338,7 +432,11 @@ def run(spec):
     # 3 late replies are inert (differential)
     if any(r["beh"][0] == "delay" and r["beh"][1] > 1.0 for r in sc["reqs"]):
         rec2 = run_once(sc, ghost=True)
-        a, b = outcome_table(rec), outcome_table(rec2)
+        ma, mb = outcome_map(rec), outcome_map(rec2)
+        common = sorted(set(ma) & set(mb))
+        res.hit("requests_compared_across_runs", len(common))
+        a = [(k, ma[k]) for k in common]
+        b = [(k, mb[k]) for k in common]
         if a != b:
             diff = [(x, y) for x, y in zip(a, b) if x != y][:3]
             res.violate("late-reply/disturbs-another-request", "removing the replies that arrive after the timeout "
